@@ -80,14 +80,25 @@ def eql (a b : Val) : Bool :=
 
 def neq (a b : Val) : Bool := !eql a b
 
+/-- strconv.ParseFloat reads "nan" in any case (without a sign) as NaN, and every ordering comparison with a NaN
+    is false; the decimals of the model have no such value, so the operators ask first -/
+def nanJson : Json → Bool
+  | .str s => s.toList.map Char.toLower == ['n', 'a', 'n']
+  | _ => false
+
+def nanVal : Val → Bool
+  | .json j => nanJson j
+  | _ => false
+
 /-- the four ordering operators share one shape: `rel` on scalars, any-match against an
     array, all-pairs `strict` for two arrays -/
 def ordOp (rel : Dec → Dec → Bool) (a b : Val) : Bool :=
   match a, b with
-  | .json (.arr xs), .json (.arr ys) => xs.all fun i => ys.all fun j => rel (floatOfJson i) (floatOfJson j)
-  | .json (.arr xs), _ => xs.any fun i => rel (floatOfJson i) (float64Operand b)
-  | _, .json (.arr ys) => ys.any fun j => rel (float64Operand a) (floatOfJson j)
-  | _, _ => rel (float64Operand a) (float64Operand b)
+  | .json (.arr xs), .json (.arr ys) =>
+    xs.all fun i => ys.all fun j => !nanJson i && !nanJson j && rel (floatOfJson i) (floatOfJson j)
+  | .json (.arr xs), _ => xs.any fun i => !nanJson i && !nanVal b && rel (floatOfJson i) (float64Operand b)
+  | _, .json (.arr ys) => ys.any fun j => !nanVal a && !nanJson j && rel (float64Operand a) (floatOfJson j)
+  | _, _ => !nanVal a && !nanVal b && rel (float64Operand a) (float64Operand b)
 
 def gtr := ordOp (fun x y => Dec.lt y x)
 def lss := ordOp (fun x y => Dec.lt x y)
